@@ -57,7 +57,14 @@ def main(argv=None):
     prop = a.prop.upper()
     seed = int(os.environ.get("VERIF_SEED", "0") or 0)
     if a.replay:
-        r = subprocess.call([sys.executable, "-m", "vf.engine.replay", a.replay], cwd=ROOT)
+        env = dict(os.environ)
+        try:
+            m_ = importlib.import_module("vf.harness.%s" % prop.lower())
+            env.update(getattr(m_, "WORKER_ENV", {}) or {})
+        except ImportError:
+            pass
+        env["PYTHONPATH"] = ROOT + os.pathsep + env.get("PYTHONPATH", "")
+        r = subprocess.call([sys.executable, "-m", "vf.engine.replay", a.replay], cwd=ROOT, env=env)
         return r
     if a.selftest:
         from vf import selftest
@@ -74,7 +81,7 @@ def main(argv=None):
     if hasattr(mod, "contracts") and not a.no_x:
         from vf.engine import xhair
         xproc = xhair.start(mod, a.tier, seed)
-    aggs = pool.run_plan(prop.lower(), items, nworkers=a.workers, time_budget=budget) if items else []
+    aggs = pool.run_plan(prop.lower(), items, nworkers=a.workers, time_budget=budget, env=getattr(mod, "WORKER_ENV", None)) if items else []
     if xproc is not None:
         xres = xproc.finish()
     if hasattr(mod, "enumerations"):
